@@ -31,7 +31,7 @@ pub fn run(tier: Tier) -> i32 {
 
     // ------------------------------------------------------------ LZMA, size-bounded
     {
-        let depth = tier.pick(3usize, 5usize);
+        let depth = tier.pick(4usize, 5usize);
         let sigma = automaton_alphabet(seed);
         let total = count_upto(sigma.len(), depth);
         let name = format!("lzma-size-bounded/depth<={}", depth);
